@@ -388,8 +388,15 @@ Proof.
   - cbn. apply ttl_pass_keeps.
 Qed.
 
+Lemma run_writebacks_keeps : forall n m wb s, n <> m -> keeps n s (fst (run_writebacks m wb s)).
+Proof.
+  intros n m wb. induction wb as [|b t IH]; intros s Ne; cbn; [apply keeps_refl|].
+  destruct b; cbn; [|apply keeps_refl].
+  eapply keeps_trans; [|apply IH; auto]. apply with_file_keeps. auto.
+Qed.
+
 Lemma force_delete_keeps : forall n m ttl owns wb s,
-  n <> m \/ wb = false -> keeps n s (fst (force_delete m ttl owns wb s)).
+  n <> m \/ (exists t, wb = false :: t) -> keeps n s (fst (force_delete m ttl owns wb s)).
 Proof.
   intros n m ttl owns wb s Hc. unfold force_delete.
   pose proof (peek_keeps n m s) as H1. destruct (peek m s) as [s1 ok]. cbn in H1.
@@ -401,9 +408,11 @@ Proof.
                   (s4, match r with ROk => ODel true false | _ => ODel false true end)))).
   { intros s0. pose proof (delete_file_keeps n m s0) as H. destruct (delete_file m s0). exact H. }
   destruct (is_persisted f) eqn:Ep.
-  - destruct wb.
-    + destruct Hc as [Ne|Hc]; [|discriminate].
-      eapply keeps_trans; [exact H1|]. eapply keeps_trans; [exact H2|].
+  - destruct Hc as [Ne|[t ->]].
+    + pose proof (run_writebacks_keeps n m wb s2 Ne) as H3.
+      destruct (run_writebacks m wb s2) as [s3 allok]. cbn [fst] in H3.
+      eapply keeps_trans; [exact H1|]. eapply keeps_trans; [exact H2|]. eapply keeps_trans; [exact H3|].
+      destruct allok; cbn [fst]; [|apply keeps_refl].
       eapply keeps_trans; [|apply D]. apply with_file_keeps. auto.
     + cbn. eapply keeps_trans; eauto.
   - eapply keeps_trans; [exact H1|]. eapply keeps_trans; [exact H2|]. apply D.
@@ -429,7 +438,9 @@ Proof.
   - apply ttl_pass_keeps.
   - apply policy_pass_keeps.
   - apply cleanup_keeps.
-  - apply force_delete_keeps. destruct wb; auto. left. apply N.eqb_neq. exact U.
+  - apply force_delete_keeps. destruct (N.eqb n n0) eqn:E; cbn in U.
+    + right. destruct wb as [|[] t]; try discriminate. eauto.
+    + left. apply N.eqb_neq. exact E.
 Qed.
 
 Lemma run_app : forall a b s,
@@ -651,6 +662,12 @@ Proof.
   destruct (pol_delete fis _ s1) as [[s2 remain] ok]. cbn in *. auto.
 Qed.
 
+Lemma run_writebacks_wf : forall n wb s, wf s -> wf (fst (run_writebacks n wb s)).
+Proof.
+  intros n wb. induction wb as [|b t IH]; intros s W; cbn; auto.
+  destruct b; cbn; auto. apply IH. apply with_file_wf. auto.
+Qed.
+
 Lemma force_delete_wf : forall n ttl owns wb s, wf s -> wf (fst (force_delete n ttl owns wb s)).
 Proof.
   intros n ttl owns wb s W. unfold force_delete.
@@ -662,8 +679,10 @@ Proof.
             (fst (let '(s4, r) := delete_file n s0 in
                   (s4, match r with ROk => ODel true false | _ => ODel false true end)))).
   { intros s0 W0. pose proof (delete_file_wf n s0 W0) as H. destruct (delete_file n s0). exact H. }
-  destruct (is_persisted f); [destruct wb|]; cbn; auto.
-  apply D. apply with_file_wf. auto.
+  destruct (is_persisted f); [|apply D; auto].
+  pose proof (run_writebacks_wf n wb s2 H2) as H3.
+  destruct (run_writebacks n wb s2) as [s3 allok]. cbn [fst] in H3.
+  destruct allok; cbn [fst]; auto. apply D. apply with_file_wf. auto.
 Qed.
 
 Lemma step_wf : forall o s, wf s -> wf (fst (step s o)).
